@@ -207,6 +207,35 @@ Definition quote_ok (nfc : text -> text) (p : position) (s qd back : text) : boo
     legal (ok_at p) qd && text_eqb (nfc (ref_unquote qd)) (nfc s) && text_eqb (nfc back) (nfc s)
   else true.
 
+(* ---- find_all_links(t, with_text=True): text pieces and links, in order, tile the input ------------------ *)
+(* an item of the result: (true, rendering of the URL object) or (false, text piece) *)
+Fixpoint drop_prefix (s t : text) : option text :=
+  match s, t with
+  | [], _ => Some t
+  | x :: s', y :: t' => if x =? y then drop_prefix s' t' else None
+  | _ :: _, [] => None
+  end.
+
+Fixpoint tails1 (t : text) : list text :=
+  match t with [] => [] | _ :: r => r :: tails1 r end.
+
+(* the pieces fit the text: every text piece is literally there, every link stands for a non-empty stretch *)
+Fixpoint fits (items : list (bool * text)) : text -> bool :=
+  match items with
+  | [] => fun t => match t with [] => true | _ => false end
+  | (false, s) :: r => fun t => match drop_prefix s t with Some t' => fits r t' | None => false end
+  | (true, _) :: r => fun t => existsb (fits r) (tails1 t)
+  end.
+
+Definition links_of (items : list (bool * text)) : list text := map snd (filter fst items).
+
+(* find_all_links never raises; with_text=True tiles the input; both calls find the same links *)
+Definition links_ok (t : text) (plain withtext : res (list (bool * text))) : bool :=
+  match plain, withtext with
+  | Ok p, Ok w => fits w t && texts_eqb (links_of p) (links_of w)
+  | _, _ => false
+  end.
+
 (* URL(t) = r; then T1 = to_text(True), T2 = URL(T1).to_text(True), M1/M2 likewise minimally quoted *)
 Definition no_pct (o : url_obs) : bool :=
   let np (s : text) := negb (memN 37 s) in
